@@ -332,6 +332,15 @@ impl ServerModel {
                 }
                 Ok(())
             }
+            SAct::PingBurst { ts, n } => {
+                none("ping")?;
+                let got: Vec<Option<u32>> = outs.iter().filter_map(|x| match &x.m { M::UserControl { code: 7, timestamp, .. } => Some(*timestamp), _ => None }).collect();
+                let want: Vec<Option<u32>> = (0..*n).map(|k| Some(ts.wrapping_add(k as u32))).collect();
+                if got != want {
+                    return v("ping/burst-not-answered-one-by-one", format!("{} ping requests in one input call must be answered with {} ping responses carrying {:?}, got {:?} (err {:?})", n, n, want, got, o.err));
+                }
+                Ok(())
+            }
             SAct::UnknownCommand | SAct::Raw { .. } => none("unknown-command"),
             SAct::Accept { id } => {
                 match self.out.remove(id) {
@@ -524,6 +533,7 @@ pub fn actions_for(m: &ServerModel, max_streams: usize, max_outstanding: usize, 
         acts.push(SAct::MetaMalformed { sid: s0, shape });
     }
     acts.push(SAct::Ping { ts: 0x0102_0304 });
+    acts.push(SAct::PingBurst { ts: 0xFFFF_FFFF, n: 3 });
     acts.push(SAct::UnknownCommand);
     // application calls: every outstanding id, one consumed id, one never issued
     let mut ids: Vec<u32> = m.out.keys().cloned().collect();
